@@ -38,6 +38,9 @@ type Server struct {
 	WatchFault func(n int, rv string) WatchMode
 	// Kind selects the list type returned (default pod).
 	Kind string
+	// StaleList makes List take its snapshot when the call arrives, before the gate and the latency: the answer
+	// is then as old as the call took (a list slower than the watch).
+	StaleList bool
 	// EmptyListRV makes List answer with an empty ListMeta.ResourceVersion (the objects keep their versions); a
 	// Watch from "" starts at the server's current version.
 	EmptyListRV bool
@@ -152,6 +155,7 @@ func (s *Server) List(ctx context.Context, opts metav1.ListOptions) (runtime.Obj
 		s.MaxActive = s.active
 	}
 	gate, lat, fault := s.ListGate, s.ListLatency, s.ListFault
+	staleObjs, staleRV := s.stateLocked(), strconv.Itoa(s.rv)
 	s.mu.Unlock()
 	finish := func(rv string, canceled bool) {
 		s.mu.Lock()
@@ -186,6 +190,9 @@ func (s *Server) List(ctx context.Context, opts metav1.ListOptions) (runtime.Obj
 	s.mu.Lock()
 	objs, rv := s.stateLocked(), strconv.Itoa(s.rv)
 	s.mu.Unlock()
+	if s.StaleList {
+		objs, rv = staleObjs, staleRV
+	}
 	finish(rv, false)
 	if s.EmptyListRV {
 		rv = ""
